@@ -256,10 +256,22 @@ func genC09(c *Ctx) {
 				}
 				// no chunk spans more than segment duration minus the advertised offset, up to one sample
 				if spans, maxSamp, err := chunkSpans(chunked.body, trex); err == nil {
-					limit := uint64(a.SegmentDurMS-atoMS)*uint64(rep.MediaTimescale)/1000 + uint64(maxSamp)
+					// (the duration of the segment that was asked for, not the asset's nominal one: on an asset with
+					// varying segment durations the advertised offset leaves less of a short segment)
+					// (its duration is read from the segment served in whole-segment mode: the sum of its sample durations)
+					segTicks := uint64(0)
+					for _, x := range ws {
+						segTicks += uint64(x.dur)
+					}
+					atoTicks := uint64(atoMS) * uint64(rep.MediaTimescale) / 1000
+					segDurMS := int(segTicks * 1000 / uint64(rep.MediaTimescale))
+					limit := uint64(maxSamp) // a segment not longer than the offset is available from its start: one sample per chunk
+					if segTicks > atoTicks {
+						limit = segTicks - atoTicks + uint64(maxSamp)
+					}
 					for ci, sp := range spans {
 						if sp > limit {
-							c.Violate("ll-chunk-span", fmt.Sprintf("chunk %d of %d spans %d ticks, segment duration minus offset (%d ms) plus one sample allows %d", ci, len(spans), sp, a.SegmentDurMS-atoMS, limit), rp, nil)
+							c.Violate("ll-chunk-span", fmt.Sprintf("chunk %d of %d spans %d ticks, segment duration minus offset (%d ms) plus one sample allows %d", ci, len(spans), sp, segDurMS-atoMS, limit), rp, nil)
 							break
 						}
 					}
